@@ -2,14 +2,16 @@
 from gateprops import run_gate_check, oracle_c16
 
 PROP = "C16"
-LEAN_FILES = ["QibProofs/Properties/C16.lean", "QibProofs/Properties/C16Tree.lean"]
+# the field-operator and Hamiltonian answers are proved in the files of C10 / C15 (C10_hermitianFlag_sound, C10_hermitianFlag_tol,
+# C10_op_hermitianFlag_sound; C15_ising/heisenberg/hubbard/molecular_hermitian*): they are obligations of this check as well
+LEAN_FILES = ["QibProofs/Properties/C16.lean", "QibProofs/Properties/C16Tree.lean", "QibProofs/Properties/C10.lean", "QibProofs/Properties/C15.lean"]
 GEN = ("gates", "pauli")
 DRIVER = "drv_gate"
 LEVEL_TEXT = ("Lean 4 theorems over (a) the leaf closed forms regenerated from gates.py by the translator and (b) combinators for "
               "controlled / multiplexed / time-evolution / block-encoding / preparation gates over arbitrary index types, lifted to every "
               "gate tree by structural induction; composite assembly (kron/diag/block_diag/np.block, inverse(), is_hermitian delegation) "
               "is tied to the code by exact differential execution of the Lean model on the same gate trees; the same statements are ALSO proved directly about the executable gate-tree model that the driver runs (Tree.mat / inverse / herm over exact Gaussian rationals, structural induction over Tree.WF, files C..Tree.lean)."
-              " Pauli strings / weighted strings / Pauli operators: is_hermitian is exact for strings and weighted strings (iff theorems for every length, phase and weight) and sound for operators, over the executable Pauli model whose tables are regenerated from the source, tied by differential execution (exhaustive n <= 2/3 + random).")
+              " Pauli strings / weighted strings / Pauli operators: is_hermitian is exact for strings and weighted strings (iff theorems for every length, phase and weight) and sound for operators, over the executable Pauli model whose tables are regenerated from the source, tied by differential execution (exhaustive n <= 2/3 + random). Field-operator terms / operators and the model Hamiltonians: flag soundness theorems of C10 and C15 (also obligations here), tied by the C10/C15 correspondences restricted to the Hermiticity answers.")
 ASSUMPTIONS = ["scipy.linalg.expm is modelled by NormedSpace.exp, sqrtm(1-H^2) by any Hermitian square root commuting with H, "
                "np.linalg.qr by any real orthogonal completion with first column +-x/|x| (each assumption is checked numerically on every sampled call)",
                "IEEE rounding/overflow is not modelled: theorems are over R/C, the numeric tie uses tolerance 1e-9 and |theta| <= 1e12; scipy.linalg.expm loses unitarity at the level eps*|t|*||H|| (6e-5 at 5e11), evolution times are sampled with |t| <= 1e4",
@@ -24,3 +26,6 @@ def run(rep, tier, rng, drv):
     import pauliflags
     run_gate_check(rep, drv, tier, rng, oracle_c16, ("mat", "herm"), "gate.all")
     pauliflags.run_pauli_flags(rep, tier, rng, "C16")
+    import flagstages
+    flagstages.run_field_operator_flags(rep, tier, rng)
+    flagstages.run_hamiltonian_flags(rep, tier, rng)
